@@ -190,3 +190,20 @@ func (sig EcdsaSignature) Pack() []byte {
 	sig.S.FillBytes(ret[nbytes:])
 	return ret
 }
+
+// Pack an ECDSA signature per IEEE 1363 with both numbers padded to the byte
+// length of the order of the given curve, as fixed-width consumers such as
+// XML-DSig require
+func (sig EcdsaSignature) PackCurve(curve elliptic.Curve) []byte {
+	nbytes := (curve.Params().N.BitLen() + 7) / 8
+	// never truncate: a value that does not fit the curve is kept whole
+	for _, v := range []*big.Int{sig.R, sig.S} {
+		if n := (v.BitLen() + 7) / 8; n > nbytes {
+			nbytes = n
+		}
+	}
+	ret := make([]byte, 2*nbytes)
+	sig.R.FillBytes(ret[0:nbytes])
+	sig.S.FillBytes(ret[nbytes:])
+	return ret
+}
